@@ -25,8 +25,13 @@ type Ctx struct {
 
 	fails      []Failure
 	nontrivial bool
+	skipped    bool
 	local      interface{}
 }
+
+// Skip marks this execution as not belonging to this run (another shard owns
+// it); it is then not counted.
+func (c *Ctx) Skip() { c.skipped = true }
 
 // Failure is one oracle failure reported by a driver.
 type Failure struct {
@@ -281,6 +286,7 @@ func (e *explorer) runOne(c *Ctx, forced []int) {
 	c.arity = c.arity[:0]
 	c.fails = c.fails[:0]
 	c.nontrivial = false
+	c.skipped = false
 	func() {
 		defer func() {
 			if r := recover(); r != nil {
@@ -298,6 +304,9 @@ func (e *explorer) runOne(c *Ctx, forced []int) {
 		}()
 		e.body(c)
 	}()
+	if c.skipped {
+		return
+	}
 	e.execs.Add(1)
 	e.points.Add(int64(len(c.trail)))
 	if c.nontrivial {
